@@ -54,7 +54,10 @@ struct Machine {
         if (!be.errors.empty()) return be.errors[0];
         return "";
     }
-    Str key() const { Str k; std::vector<Str> v; for (auto &s : slots) v.push_back(s.live ? fmt("%zu", s.size) : Str("-")); for (auto &x : v) k += x + ","; return k + fmt("f%d|b%zu", nfail, be.live.size()); }
+    // what the implementation keeps about a live block outside the caller's payload (the bytes of the backend block in front of the
+    // pointer it handed out): part of the state, or two histories that differ only in this book-keeping would be merged
+    Str hidden(const Slot &s) const { for (auto &kv : be.live) { const char *b0 = (const char *)kv.first; if (s.p >= b0 && s.p <= b0 + kv.second) { Str h; for (const char *q = b0; q < s.p; q++) h += fmt("%02x", (unsigned char)*q); return h; } } return "?"; }
+    Str key() const { Str k; std::vector<Str> v; for (auto &s : slots) v.push_back(s.live ? fmt("%zu/", s.size) + hidden(s) : Str("-")); for (auto &x : v) k += x + ","; return k + fmt("f%d|b%zu", nfail, be.live.size()); }
     int free_slot() const { for (int i = 0; i < MAXLIVE; i++) if (!slots[i].live) return i; return -1; }
     // applies op; returns "" or a violation text; *na set when the op is not applicable in this state
     Str apply(const Op &o, bool *na) {
